@@ -8,6 +8,9 @@ All statements are about `Model.Names`, the executable model of `internal/strs/s
 `compiler/protogen` (`newMessage`, `protogen_opaque.go`); the `names` harness compares that model with the
 Go code on every run.  Strings are lists of bytes (`GoSanitized`: of code points).
 
+(State of /repo: after commits 25d16a6 "reserve ProtoReflect" and f3220dc "oneof no-release"; the two
+obligations they repaired are proved positively below as `open_go_names_distinct`.)
+
 The last clause of the property ("within a generated message all field, getter, setter, oneof and
 nested-type names are pairwise distinct for any field naming") is FALSE of the current code.  For each way
 in which it fails this file has the proved negation on a concrete schema (the same schemas are replayed
@@ -163,14 +166,43 @@ theorem resolveOps_shape : ∀ (ops : List (Str × Kind)) (used : List Str) (rs 
     · exact ⟨rfl, (mkUnique_spec hr).2.2⟩
     · exact hz p hp
 
+theorem fixedMethods_reserved : ∀ x ∈ fixedMethods, x ∈ reserved := by decide
+
+/-- Unconditional, for ANY sequence of `makeNameUnique` calls (fields and oneofs, any names): the Go names of
+the fields and oneofs of a message are pairwise distinct, none of them is the `Get` method of a field, none of
+them — and no `Get` method — is a reserved name; in particular no member meets a method that the generator
+puts on every message (`Reset`, `String`, `ProtoMessage`, `ProtoReflect`, `Descriptor`).
+(Before /repo commits 25d16a6 and f3220dc this was false: `ProtoReflect` was not reserved, and
+`makeNameUnique(name, false)` released `"Get"+name`.) -/
+theorem open_go_names_distinct (ops rs : List (Str × Kind)) (h : resolveOps reserved ops = some rs) :
+    (rs.map (·.1)).Nodup ∧
+    (∀ p ∈ rs, ∀ q ∈ rs, q.2.hasGetter = true → p.1 ≠ GET ++ q.1) ∧
+    (∀ x ∈ openMembers rs, x ∉ reserved ∧ x ∉ fixedMethods) := by
+  obtain ⟨h1, h2, h3⟩ := resolveOps_spec ops reserved rs h
+  refine ⟨h2, h3, ?_⟩
+  have hr : ∀ x ∈ openMembers rs, x ∉ reserved := by
+    intro x hx
+    unfold openMembers at hx
+    rcases List.mem_append.mp hx with hx | hx
+    · obtain ⟨p, hp, rfl⟩ := List.mem_map.mp hx
+      exact (h1 p (List.mem_filter.mp hp).1).1
+    · obtain ⟨q, _, rfl⟩ := List.mem_map.mp hx
+      exact get_not_reserved _
+  exact fun x hx => ⟨hr x hx, fun hf => hr x hx (fixedMethods_reserved x hf)⟩
+
+/-- in particular two fields never share a Go name or a getter -/
+theorem open_field_names_distinct (ops rs : List (Str × Kind)) (h : resolveOps reserved ops = some rs) :
+    ((rs.filter (·.2 == Kind.plain)).map (·.1)).Nodup :=
+  List.Nodup.sublist (List.Sublist.map _ List.filter_sublist) (open_go_names_distinct ops rs h).1
+
 /-- FULL STATEMENT (open API): "the struct field names (fields, oneofs) and the `Get` method names (fields,
 oneofs) of a message are pairwise distinct and none of them is a reserved method name, for any field naming".
-It is false of the current code (`open_oneof_getter_collides`, `open_release_collides` below); it holds
-under `NoGetClash`: no oneof's `Get<Name>` is itself the Go name of a field or oneof. -/
+It is false of the current code (`open_oneof_getter_collides` below): the `Get` method of a oneof is not
+reserved.  It holds under `NoGetClash`: no oneof's `Get<Name>` is itself the Go name of a field or oneof. -/
 theorem open_names_distinct_partial (ops rs : List (Str × Kind))
     (h : resolveOps reserved ops = some rs) (hc : NoGetClash rs) :
     (openMembers rs).Nodup ∧ ∀ x ∈ openMembers rs, x ∉ reserved := by
-  obtain ⟨h1, h2, h3⟩ := resolveOps_spec ops reserved rs h hc
+  obtain ⟨h1, h2, h3⟩ := resolveOps_spec ops reserved rs h
   have hne : ∀ p ∈ rs, ∀ q ∈ rs, p.1 ≠ GET ++ q.1 := by
     intro p hp q hq
     cases hg : q.2.hasGetter
@@ -280,35 +312,19 @@ oneof `x` carry one name ("this assumes that a getter method is not generated fo
 theorem open_oneof_getter_collides : ∃ l, openMembersOf wOneofGetter = some l ∧ ¬ l.Nodup :=
   ⟨_, rfl, by decide⟩
 
-/-- `message M { oneof get_x { int32 a = 1; } oneof x { int32 b = 2; } optional int32 GetX = 3; }` -/
+/-- `message M { oneof get_x { int32 a = 1; } oneof x { int32 b = 2; } optional int32 GetX = 3; }`:
+the former witness of the released `Get` name; field `GetX` is now moved out of the way -/
 def wRelease : Msg :=
   ⟨str "M", [fld "a" 1 (some 0), fld "b" 2 (some 1), fld "GetX" 3 none], [str "get_x", str "x"], [], []⟩
 
-/-- REFUTED (sig `oneof-releases-get-name`): resolving oneof `x` executes `usedNames["GetX"] = false` and
-releases the name held by oneof `get_x`; field `GetX` is then given the struct field name `GetX` again. -/
-theorem open_release_collides :
-    ∃ rs, resolveOps reserved (opsOf wRelease.oneofs [] wRelease.fields) = some rs ∧ ¬ (rs.map (·.1)).Nodup :=
+example : ∃ rs, resolveOps reserved (opsOf wRelease.oneofs [] wRelease.fields) = some rs ∧
+    rs.map (·.1) = [str "A", str "GetX", str "B", str "X", str "GetX_"] :=
   ⟨_, rfl, by decide⟩
 
-/-- the same defect makes two *fields* share their Go name and their getter -/
-def wRelease2 : Msg :=
-  ⟨str "M", [fld "GetGetX" 1 none, fld "a" 2 (some 0), fld "b" 3 (some 1), fld "c" 4 (some 2),
-     fld "d" 5 (some 3), fld "get_get_x" 6 none],
-   [str "get_x", str "getGetX", str "x", str "GetX"], [], []⟩
-
-theorem open_release_collides_fields :
-    ∃ rs, resolveOps reserved (opsOf wRelease2.oneofs [] wRelease2.fields) = some rs ∧
-      ¬ ((rs.filter (·.2 == Kind.plain)).map (·.1)).Nodup :=
-  ⟨_, rfl, by decide⟩
-
-/-- `message M { optional int32 proto_reflect = 1; }` -/
+/-- `message M { optional int32 proto_reflect = 1; }`: the former witness of the missing reserved name -/
 def wProtoReflect : Msg := ⟨str "M", [fld "proto_reflect" 1 none], [], [], []⟩
 
-/-- REFUTED (sig `protoreflect-not-reserved`): the reserved set of `newMessage` lacks `ProtoReflect`, a method
-of every generated message; the theorems above speak of the reserved set as coded. -/
-theorem open_protoreflect_collides :
-    ∃ l, openMembersOf wProtoReflect = some l ∧ ∃ x ∈ l, x ∈ fixedMethods :=
-  ⟨_, rfl, by decide⟩
+example : openMembersOf wProtoReflect = some [str "ProtoReflect_", str "GetProtoReflect_"] := by decide
 
 /-- `NoGetClash` is satisfiable by a message with a oneof whose members need renaming -/
 example : ∃ rs, resolveOps reserved (opsOf [str "reset"] []
